@@ -66,6 +66,9 @@ def env():
     if LIB not in sys.path:
         sys.path.insert(0, LIB)
     repo_first()
+    import logging
+    logging.getLogger("rdflib").setLevel(logging.CRITICAL)      # rdflib logs every odd IRI it is asked to serialise
+    logging.getLogger("rdflib.term").setLevel(logging.CRITICAL)
     import shexer.shaper                      # noqa: F401  (from $VERIF_REPO)
     got = os.path.realpath(sys.modules["shexer"].__file__)
     if not got.startswith(real + os.sep):
@@ -101,29 +104,171 @@ def _on_alarm(signum, frame):
     raise WallClockTimeout()
 
 
-def run_shexer(nt, cfg, t=0):
-    """One fresh Shaper on N-Triples text.  cfg: json-able Shaper keyword arguments (defaults:
-    namespaces_dict=graphgen.NAMESPACES, instances_report_mode='mixed', disable_comments=False).
-    Raises whatever sheXer raises; WallClockTimeout after TIMEOUT seconds."""
+def _monitor_keys(cfg):
+    return dict((k, v) for k, v in cfg.items() if k.startswith("_")), dict((k, v) for k, v in cfg.items() if not k.startswith("_"))
+
+
+def to_turtle(T):
+    """Small Turtle writer: @prefix table, statements grouped by subject with ';' and ',', 'a' for rdf:type."""
+    M, S, G = lib()
+    ns = dict(G.NAMESPACES)
+
+    def pn(iri):
+        for n, pre in ns.items():
+            rest = iri[len(n):]
+            if iri.startswith(n) and re.match(r"^[A-Za-z_][A-Za-z0-9_]*$", rest):
+                return pre + ":" + rest
+        return "<" + iri + ">"
+
+    def term(x):
+        if isinstance(x, M.IRI):
+            return pn(x.iri)
+        if isinstance(x, M.BNode):
+            return "_:" + x.label
+        lex = '"' + M.escape_lex(x.lex) + '"'
+        if x.lang is not None:
+            return lex + "@" + x.lang
+        return lex + ("^^" + pn(x.dt) if x.dt is not None else "")
+
+    out = ["@prefix %s: <%s> ." % (pre, n) for n, pre in ns.items()]
+    by_s = collections.OrderedDict()
+    for (s_, p_, o_) in T:
+        by_s.setdefault(s_, collections.OrderedDict()).setdefault(p_, []).append(o_)
+    for s_, po in by_s.items():
+        parts = ["%s %s" % ("a" if p_ == M.RDF_TYPE else pn(p_), " , ".join(term(o_) for o_ in os_)) for p_, os_ in po.items()]
+        out.append("%s %s ." % (term(s_), " ;\n    ".join(parts)))
+    return "\n".join(out) + "\n"
+
+
+def build_shaper(nt, cfg):
+    """-> (Shaper, cleanup()).  Monitor-level keys of cfg (leading underscore) select the input channel:
+    _channel: None (raw N-Triples) | 'turtle' (own Turtle rendering, input_format='turtle', parsed by rdflib) |
+    'rdflib_graph' (rdflib.Graph parsed from the N-Triples text) | 'files' (_files = [[name, text], ...] written to a
+    temporary directory and passed as graph_list_of_files_input in the listed order)."""
     e = env()
-    kw = dict(cfg)
+    mk, kw = _monitor_keys(cfg)
     ns = kw.pop("namespaces_dict", None)
-    ns = dict(ns) if ns is not None else dict(e.G.NAMESPACES)
+    ns = collections.OrderedDict(ns) if ns is not None else dict(e.G.NAMESPACES)
     kw.setdefault("instances_report_mode", "mixed")
     kw.setdefault("disable_comments", False)
-    if "target_classes" in kw and kw["target_classes"] is not None:
-        kw["target_classes"] = list(kw["target_classes"])
-    if "namespaces_to_ignore" in kw and kw["namespaces_to_ignore"] is not None:
-        kw["namespaces_to_ignore"] = list(kw["namespaces_to_ignore"])
+    for k in ("target_classes", "namespaces_to_ignore"):
+        if kw.get(k) is not None:
+            kw[k] = list(kw[k])
     Shaper = sys.modules["shexer.shaper"].Shaper
+    channel = mk.get("_channel")
+    cleanup = lambda: None
+    if channel is None:
+        kw.update(raw_graph=nt, input_format="nt")
+    elif channel == "turtle":
+        kw.update(raw_graph=to_turtle(parse_nt(nt)), input_format="turtle")
+    elif channel == "rdflib_graph":
+        import rdflib
+        g = rdflib.Graph()
+        g.parse(data=nt, format="nt")
+        kw.update(rdflib_graph=g)
+    elif channel == "files":
+        import shutil
+        import tempfile
+        d = tempfile.mkdtemp(prefix="shexer_monitor_")
+        paths = []
+        for name, text in mk["_files"]:
+            with open(os.path.join(d, name), "w") as fh:
+                fh.write(text)
+            paths.append(os.path.join(d, name))
+        kw.update(graph_list_of_files_input=paths, input_format="nt")
+        cleanup = lambda: shutil.rmtree(d, ignore_errors=True)
+    else:
+        raise ValueError("unknown channel %r" % channel)
+    try:
+        return Shaper(namespaces_dict=ns, **kw), cleanup
+    except BaseException:
+        cleanup()
+        raise
+
+
+def run_shexer(nt, cfg, t=0, history=False):
+    """One fresh Shaper.  cfg: json-able Shaper keyword arguments (defaults: namespaces_dict=graphgen.NAMESPACES,
+    instances_report_mode='mixed', disable_comments=False) plus monitor keys (see build_shaper).
+    Returns (text, events, calls).  With history=True the SAME Shaper is called again: same arguments, another
+    threshold and back, SHACL and back, profile_graph and back, and a second Shaper does profile_graph first;
+    events = [(category, detail)] for every deviation from the first text; the text returned is the LAST ShExC
+    result.  Raises whatever the first call raises; WallClockTimeout after TIMEOUT seconds."""
     old = signal.signal(signal.SIGALRM, _on_alarm)
     signal.alarm(TIMEOUT)
+    cleanups = []
     try:
-        shaper = Shaper(raw_graph=nt, input_format="nt", namespaces_dict=ns, **kw)
-        return shaper.shex_graph(string_output=True, acceptance_threshold=t)
+        shaper, cl = build_shaper(nt, cfg)
+        cleanups.append(cl)
+        first = shaper.shex_graph(string_output=True, acceptance_threshold=t)
+        if not history:
+            return first, [], 1
+        events, last, calls = [], first, 1
+        other = 0.5 if t != 0.5 else 0
+
+        def fresh():
+            sh, c = build_shaper(nt, cfg)
+            cleanups.append(c)
+            return sh
+
+        def step(category, target, call, compare=True):
+            """call(shaper) on `target`; a crash counts only if the same call succeeds on a fresh Shaper."""
+            nonlocal last, calls
+            calls += 1
+            try:
+                out = call(target)
+            except WallClockTimeout:
+                raise
+            except Exception as exc:
+                calls += 1
+                try:
+                    call(fresh())
+                except WallClockTimeout:
+                    raise
+                except Exception:
+                    events.append(("benign", "%s also raises %s on a fresh Shaper" % (category, type(exc).__name__)))
+                    return None
+                events.append(("crash:%s" % type(exc).__name__, "%s raised %s: %s (the same call succeeds on a fresh Shaper)"
+                               % (category, type(exc).__name__, exc)))
+                return None
+            if compare:
+                if out != first:
+                    events.append((category, _first_diff(first, out)))
+                last = out
+            return out
+
+        def shex(th, fmt=None):
+            if fmt is None:
+                return lambda sh: sh.shex_graph(string_output=True, acceptance_threshold=th)
+            return lambda sh: sh.shex_graph(string_output=True, acceptance_threshold=th, output_format=fmt)
+
+        def prof(sh):
+            return sh.profile_graph(string_output=True)
+        step("second-call-differs", shaper, shex(t))
+        step("call with another threshold", shaper, shex(other), compare=False)
+        step("after-other-threshold", shaper, shex(t))
+        step("SHACL serialisation", shaper, shex(t, "Shacl"), compare=False)
+        step("after-other-format", shaper, shex(t))
+        step("profile_graph after shex_graph", shaper, prof, compare=False)
+        step("after-profile-graph", shaper, shex(t))
+        shaper2 = fresh()
+        step("profile_graph", shaper2, prof, compare=False)
+        step("after-profile-graph", shaper2, shex(t))
+        return last, events, calls
     finally:
         signal.alarm(0)
         signal.signal(signal.SIGALRM, old)
+        for cl in cleanups:
+            cl()
+
+
+def _first_diff(a, b):
+    la, lb = a.split("\n"), b.split("\n")
+    for i in range(max(len(la), len(lb))):
+        x = la[i] if i < len(la) else "<end>"
+        y = lb[i] if i < len(lb) else "<end>"
+        if x != y:
+            return "first differing line %d: %r vs %r (%d vs %d lines)" % (i + 1, x.strip(), y.strip(), len(la), len(lb))
+    return "texts differ"
 
 
 class Skipped(Exception):
@@ -137,7 +282,9 @@ class Skipped(Exception):
 class Runner(object):
     """Runs sheXer, parses and normalises the output, and keeps the book-keeping of one case."""
 
-    def __init__(self):
+    def __init__(self, pid="?", history=False):
+        self.pid = pid
+        self.history = history
         self.evaluations = 0
         self.crashes = collections.Counter()
         self.nontrivial = set()
@@ -148,7 +295,7 @@ class Runner(object):
         e = env()
         self.evaluations += 1
         try:
-            text = run_shexer(nt, cfg, t)
+            text, events, calls = run_shexer(nt, cfg, t, history=self.history)
         except WallClockTimeout:
             self.crashes["timeout"] += 1
             raise Skipped("timeout")
@@ -156,6 +303,14 @@ class Runner(object):
             sig = e.V.crash_signature(exc)
             self.crashes[sig] += 1
             raise Skipped(sig)
+        self.evaluations += calls - 1
+        for (category, detail) in events:
+            if category == "benign":
+                self.crashes["history step skipped: " + detail] += 1
+                continue
+            self.emit("%s:call-history:%s" % (self.pid, category),
+                      "same Shaper called repeatedly (t=%r): %s" % (t, detail),
+                      {"pid": self.pid, "history_call": {"nt": nt, "cfg": cfg, "t": t}})
         try:
             doc = e.P.parse_shexc(text)
         except e.P.ShexcParseError as exc:
@@ -282,13 +437,13 @@ def enum_small(limit, third="iri", offset=0, pi=None):
 
 def rand_graph(rng, n_nodes=6, n_triples=14, n_classes=3, n_props=4, p_bnode=0.0, p_typed=0.75,
                max_types=3, p_literal=0.4, p_link_typed=0.6, pi=None, extra_props=(), shuffle=True,
-               bnode_objects=True):
+               bnode_objects=True, classes=None, extra_literals=()):
     """Seeded random graph: IRI nodes in two namespaces (blank nodes with probability p_bnode), typed
     with 0..max_types of the classes A..E, data triples with plain / xsd:integer / custom-datatype
     literals, links to typed and untyped nodes; repeated (s, p) pairs give cardinalities > 1."""
     M, S, G = lib()
     pi = pi or M.RDF_TYPE
-    classes = [G.EX + c for c in ["A", "B", "C", "D", "E"][:n_classes]]
+    classes = list(classes) if classes else [G.EX + c for c in ["A", "B", "C", "D", "E"][:n_classes]]
     props = [(G.EX if i % 2 == 0 else G.OTHER) + "p%d" % i for i in range(n_props)] + list(extra_props)
     nodes = []
     for i in range(n_nodes):
@@ -310,7 +465,7 @@ def rand_graph(rng, n_nodes=6, n_triples=14, n_classes=3, n_props=4, p_bnode=0.0
     if p_bnode > 0 and bnode_objects:
         extra += [M.BNode("u%d" % i) for i in range(2)]
     lits = [M.Lit("x"), M.Lit("y"), M.Lit("z"), M.Lit("1", dt=M.XSD_INTEGER), M.Lit("2", dt=M.XSD_INTEGER),
-            M.Lit("v", dt=DT_FOO), M.Lit("w", dt=DT_FOO)]
+            M.Lit("v", dt=DT_FOO), M.Lit("w", dt=DT_FOO)] + list(extra_literals)
     for _ in range(n_triples):
         s = rng.choice(typed) if rng.random() < 0.85 else rng.choice(nodes)
         p = rng.choice(props)
@@ -344,6 +499,41 @@ def mixed_family(rng, n_enum, n_rand, bnodes=True, big=False, pi=None, extra_pro
         out.append(("random", rand_graph(rng, n_nodes=rng.randint(3, hi_nodes), n_triples=rng.randint(4, hi_tr),
                                          n_classes=rng.randint(2, 3), n_props=rng.randint(2, 4), p_bnode=pb,
                                          pi=pi, extra_props=extra_props)))
+    return out
+
+
+def same_text_graph(rng):
+    """Graph whose objects deliberately share their TEXT while differing in kind: "7" / "7"^^xsd:integer /
+    "7"^^<dt/foo>, "chat" / "chat"@fr / "chat"@en, <http://ex.org/home> / "http://ex.org/home", the IRI of a typed node /
+    the same text as a string.  A reader that identifies terms by str() collapses them."""
+    M, S, G = lib()
+    nodes = [M.IRI(G.EX + "n%d" % i) for i in range(rng.randint(3, 6))]
+    T = []
+    for x in nodes:
+        for C in rng.sample([G.CLASS_A, G.CLASS_B], rng.randint(1, 2)):
+            T.append(M.Triple(x, M.RDF_TYPE, M.IRI(C)))
+    home = G.EX + "home"
+    pool = [M.Lit("7"), M.Lit("7", dt=M.XSD_INTEGER), M.Lit("7", dt=DT_FOO), M.Lit("chat"), M.Lit("chat", lang="fr"),
+            M.Lit("chat", lang="en"), M.IRI(home), M.Lit(home), nodes[0], M.Lit(nodes[0].iri)]
+    props = [G.EX + "p0", G.OTHER + "p1", G.EX + "p2"]
+    for _ in range(rng.randint(6, 16)):
+        o = rng.choice(pool) if rng.random() < 0.85 else rng.choice(nodes)
+        T.append(M.Triple(rng.choice(nodes), rng.choice(props), o))
+    T = dedup(T)
+    rng.shuffle(T)
+    return T
+
+
+def add_duplicate_lines(T, rng, kind, n=1):
+    """Repeat n statements of T (kind 'type': instantiation triples, 'data': others) at a later position."""
+    M = lib()[0]
+    cands = [t for t in T if (t[1] == M.RDF_TYPE) == (kind == "type")]
+    if not cands:
+        return None
+    out = list(T)
+    for t in rng.sample(cands, min(n, len(cands))):
+        first = out.index(t)
+        out.insert(rng.randint(first + 1, len(out)), t)
     return out
 
 
@@ -676,7 +866,12 @@ def check_keys(pid, nd, spec, l2c, t, report, check_shapes=True):
             lab = label_of_class(C, l2c)
             if lab in printed:
                 continue
-            if any(not S.is_shape(e.k) for e in spec.cand(C, t)):
+            by_key = {}
+            for e in spec.cand(C, t):
+                by_key.setdefault(S.key_of(e.dir, e.p, e.k, pi), []).append(e)
+            # a key with a candidate that refers to a removed shape may vanish with it (cascade of the empty-shape
+            # removal); the class must be printed if some key is free of such references and has a non-reference kind
+            if any(all(e.k not in gone for e in es) and any(not S.is_shape(e.k) for e in es) for es in by_key.values()):
                 report("%s:missing-shape" % pid,
                        "no shape for %s although it has %d instance(s) and candidates at t=%r" % (C, spec.N[C], t),
                        sorted(printed), lab)
